@@ -33,7 +33,9 @@ MEM_HELPER = ["mem_adr0", "mem_dat0", "mem_adr1", "mem_dat1", "mem_1", "mem_2", 
               "PRIM", "PRIM_1", "sys_clk_1", "sys_rst_1", "sys_rst"]
 UNDERSCORE = ["_", "_x", "__x", "x_", "x__1", "__1", "x_1_"]           # nothing the tracer can turn into a leading digit
 # migen's tracer drops one leading underscore of names longer than two characters (remove_underscore)
-LEADING = ["_0", "_1", "_3v3", "_100mhz", "_0x", "_1_1", "__1", "_x1", "_abc", "__abc", "_", "_x", "_1wire", "_data", "_q"]
+LEADING = ["_0", "_1", "_3v3", "_100mhz", "_0x", "_2b", "__x1", "_x1", "_abc", "__abc", "_", "_x", "_1wire", "_data", "_q"]
+for _a in LEADING:                                     # no member is another member plus a generated _<n> suffix
+    assert not any(_a != _b and _a.startswith(_b + "_") and _a[len(_b) + 1:].isdigit() for _b in LEADING), _a
 SUFFIX_RE = re.compile(r"_[0-9]+\Z")
 DIGIT_RE = re.compile(r"[0-9]\Z")
 
@@ -120,7 +122,7 @@ def gen_design(seed, profile, size, k=0):
         if rng.random() < 0.22:
             kw["rel"] = rng.randrange(1000)
         if rng.random() < 0.15:
-            kw["attrs"] = rng.sample(["keep", "no_retiming", "mr_ff", "async_reg", "dont_touch"], rng.randint(2, 3))
+            kw["attrs"] = rng.sample(["keep", "no_retiming", "mr_ff", "async_reg", "dont_touch"], rng.randint(3, 4))
         return kw
 
     levels = [[0]]
@@ -216,7 +218,8 @@ def _sig_call(it, name=None):
     if it.get("rel") is not None:
         args.append("related=_pick(%d)" % it["rel"])
     if it.get("attrs"):
-        args.append("attr={%s}" % ", ".join(repr(a) for a in it["attrs"]))
+        # tuple form = platform attribute, emitted verbatim; the bare string form needs a platform translation table
+        args.append("attr={%s}" % ", ".join("(%r, 'true')" % a if n else repr(a) for n, a in enumerate(it["attrs"])))
     return "Signal(%s)" % ", ".join(args)
 
 
@@ -501,6 +504,23 @@ def collision_key(ns, a, b, name):
     if suffixed(ba) and suffixed(bb):
         return "namespace/two-suffixed-names-collide"
     return "namespace/collision-unclassified"
+
+
+def exception_entry(e, where):
+    """an exception raised inside the code under test on a legal design is a finding of its own; a harness
+    exception is re-raised (col.guard turns it into inconclusive)"""
+    import os
+    tb = traceback.extract_tb(e.__traceback__)
+    inner = [fr for fr in tb if "/litex/" in fr.filename] or [fr for fr in tb if "/migen/" in fr.filename]
+    if not inner:
+        raise e
+    fr = inner[-1]                                         # innermost frame of the tree under test
+    key = "exception/%s@%s:%s" % (type(e).__name__, os.path.basename(fr.filename), fr.name)
+    m = re.search(r"Signal name '([^']*)' is not a valid Python identifier", str(e))
+    if isinstance(e, ValueError) and m and legal_key(m.group(1)) == "legal/name-starts-with-digit":
+        key = "legal/name-starts-with-digit"               # same mechanism, seen by the memory emitter's own helper Signal()
+    return {"key": key, "what": "%s raised %s: %s" % (where, type(e).__name__, str(e)[:300]),
+            "witness": {"traceback": traceback.format_exception(type(e), e, e.__traceback__)[-6:]}}
 
 
 # ------------------------------------------------------------------------------------------------
@@ -869,8 +889,11 @@ def script_main():
             names = sorted([o.duid, r.ns.get_name(o)] for o in r.ns.sigs)          # duids are the same in every run
             out.append({"text": r.main_source, "names": names, "request_order": [o.duid for o in r.ns.sigs],
                         "data_files": {k: v for k, v in sorted(r.data_files.items())}})
-        except Exception:
-            out.append({"error": traceback.format_exc()[-1500:]})
+        except Exception as e:
+            try:
+                out.append({"error": exception_entry(e, "convert()")})
+            except Exception:
+                out.append({"error": {"key": None, "what": traceback.format_exc()[-1500:], "witness": None}})
     sys.stdout.write(json.dumps({"hashseed": __import__("os").environ.get("PYTHONHASHSEED"), "out": out}))
 
 
